@@ -805,3 +805,245 @@ Lemma basic_forwards :
     basic_discrete_SIR g p ord i0 r0 rho tmin tmax full fuel =
     discrete_SIR g (simple_rules p) None ord i0 r0 rho tmin tmax full fuel.
 Proof. reflexivity. Qed.
+
+(* ------------------------------------------------------------------ *)
+(* Part 5: Bernoulli(p) rules: the product laws                          *)
+
+Fixpoint qpow (q : Q) (n : nat) : Q := match n with O => 1 | S n' => q * qpow q n' end.
+Definition prodQ (l : list Q) : Q := fold_right Qmult 1 l.
+
+Lemma prob_app : forall (A : Type) (f : A -> bool) d1 d2, prob f (d1 ++ d2) == prob f d1 + prob f d2.
+Proof.
+  intros A f d1 d2. unfold prob. induction d1 as [|x d1 IH]; simpl.
+  - ring.
+  - rewrite IH. ring.
+Qed.
+
+Lemma prob_scale : forall (A : Type) (f : A -> bool) q d, prob f (scale q d) == q * prob f d.
+Proof.
+  intros A f q d. unfold prob, scale. induction d as [|x d IH]; simpl.
+  - ring.
+  - rewrite IH. destruct (f (fst x)); ring.
+Qed.
+
+Lemma prob_flip : forall (A : Type) (f : A -> bool) p (kt kf : samp A),
+  prob f (law (Flip p kt kf)) == clamp01 p * prob f (law kt) + (1 - clamp01 p) * prob f (law kf).
+Proof. intros. cbn [law]. rewrite prob_app, !prob_scale. reflexivity. Qed.
+
+Lemma prodQ_ext : forall (f h : node -> Q) l, (forall v, In v l -> f v == h v) ->
+  prodQ (map f l) == prodQ (map h l).
+Proof.
+  intros f h l H. induction l as [|x l IH]; simpl; [reflexivity|].
+  rewrite (H x (or_introl eq_refl)), IH; [reflexivity|]. intros v Hv. apply H. right. exact Hv.
+Qed.
+
+Lemma prod_split : forall (f : node -> Q) l w, NoDup l -> In w l ->
+  prodQ (map f l) == f w * prodQ (map (fun v => if N.eqb v w then 1 else f v) l).
+Proof.
+  intros f l w Hn. induction Hn as [|x l Hx Hn IH]; intros Hw; [destruct Hw|].
+  simpl. destruct (N.eqb_spec x w) as [E|E].
+  - subst x. rewrite (prodQ_ext (fun v => if N.eqb v w then 1 else f v) f l).
+    + ring.
+    + intros v Hv. destruct (N.eqb_spec v w) as [E|E]; [subst v; contradiction|reflexivity].
+  - destruct Hw as [Hw|Hw]; [contradiction|]. rewrite (IH Hw). ring.
+Qed.
+
+Lemma prod_indicator : forall (b : node -> bool) l,
+  prodQ (map (fun v => if b v then 1 else 0) l) == if forallb b l then 1 else 0.
+Proof.
+  intros b l. induction l as [|x l IH]; simpl; [reflexivity|].
+  rewrite IH. destruct (b x), (forallb b l); simpl; ring.
+Qed.
+
+Definition mcount (cs : list (node * node)) (v : node) : nat :=
+  length (filter (fun e => N.eqb (snd e) v) cs).
+
+Lemma mcount_cons_same : forall u w cs, mcount ((u, w) :: cs) w = S (mcount cs w).
+Proof. intros. unfold mcount. simpl. rewrite N.eqb_refl. reflexivity. Qed.
+Lemma mcount_cons_other : forall u w cs v, v <> w -> mcount ((u, w) :: cs) v = mcount cs v.
+Proof. intros u w cs v H. unfold mcount. simpl. destruct (N.eqb_spec w v); [congruence|reflexivity]. Qed.
+
+Section ReedFrost.
+Variable g : graph.
+Variable p : Q.
+Variable full : bool.
+Variable A : list node.             (* the candidate next generation *)
+Hypothesis Hnd : NoDup (gnodes g).
+
+Let q := clamp01 p.
+
+(* the event "the set of newly infected nodes is exactly A" *)
+Definition new_is (c : cst) : bool :=
+  forallb (fun v => Bool.eqb (mem v (c_new c)) (mem v A)) (gnodes g).
+
+(* factor of node v: still susceptible with m pending contacts / already decided *)
+Definition Fv (c : cst) (cs : list (node * node)) (v : node) : Q :=
+  if c_sus c v then (if mem v A then 1 - qpow (1 - q) (mcount cs v) else qpow (1 - q) (mcount cs v))
+  else if mem v (c_new c) then (if mem v A then 1 else 0)
+  else (if mem v A then 0 else 1).
+
+Lemma rf_general : forall k age cs c,
+  (forall e, In e cs -> In (snd e) (gnodes g)) ->
+  (forall v, In v (c_new c) -> c_sus c v = false) ->
+  prob new_is (law (cloop (simple_rules p) full k age cs c)) == prodQ (map (Fv c cs) (gnodes g)).
+Proof.
+  intros k age cs. induction cs as [|[u w] cs IH]; intros c Hcs Hinv.
+  - cbn [cloop law]. unfold prob. simpl. unfold new_is. rewrite Qplus_0_r.
+    rewrite <- prod_indicator. apply prodQ_ext. intros v Hv. unfold Fv, mcount. simpl.
+    destruct (c_sus c v) eqn:Es.
+    + assert (M : mem v (c_new c) = false).
+      { destruct (mem v (c_new c)) eqn:M; [|reflexivity]. apply dmem_In in M. apply Hinv in M. congruence. }
+      rewrite M. destruct (mem v A); simpl; ring.
+    + destruct (mem v (c_new c)), (mem v A); simpl; reflexivity.
+  - assert (Hw : In w (gnodes g)) by (apply (Hcs (u, w)); left; reflexivity).
+    assert (Hcs' : forall e, In e cs -> In (snd e) (gnodes g)) by (intros e He; apply Hcs; right; exact He).
+    cbn [cloop]. destruct (c_sus c w) eqn:Es.
+    + cbn [simple_rules r_test bind]. rewrite prob_flip. fold q.
+      rewrite IH; [|exact Hcs'|].
+      2:{ cbn [c_new c_sus]. intros v [E|Hv]; unfold fupdN.
+          - subst v. rewrite N.eqb_refl. reflexivity.
+          - destruct (N.eqb v w); [reflexivity|apply Hinv; exact Hv]. }
+      rewrite IH; [|exact Hcs'|exact Hinv].
+      rewrite (prod_split _ _ w Hnd Hw). rewrite (prod_split (Fv (mkC (c_sus c) (c_new c) (c_inf c) (c_nS c) ((k, u, w) :: c_q c)) cs) _ w Hnd Hw).
+      rewrite (prod_split (Fv c ((u, w) :: cs)) _ w Hnd Hw).
+      set (PE := prodQ (map (fun v => if N.eqb v w then 1 else Fv c ((u, w) :: cs) v) (gnodes g))).
+      assert (E1 : prodQ (map (fun v => if N.eqb v w then 1 else
+                     Fv (mkC (fupdN (c_sus c) w false) (w :: c_new c) (c_inf c ++ [(w, [u])]) (c_nS c - 1)%Z ((k, u, w) :: c_q c)) cs v) (gnodes g)) == PE).
+      { apply prodQ_ext. intros v Hv. destruct (N.eqb_spec v w) as [E|E]; [reflexivity|].
+        unfold Fv. cbn [c_sus c_new]. unfold fupdN. rewrite mem_cons.
+        destruct (N.eqb_spec v w) as [E'|_]; [contradiction|]. cbn [orb].
+        rewrite (mcount_cons_other u w cs v E). reflexivity. }
+      assert (E2 : prodQ (map (fun v => if N.eqb v w then 1 else
+                     Fv (mkC (c_sus c) (c_new c) (c_inf c) (c_nS c) ((k, u, w) :: c_q c)) cs v) (gnodes g)) == PE).
+      { apply prodQ_ext. intros v Hv. destruct (N.eqb_spec v w) as [E|E]; [reflexivity|].
+        unfold Fv. cbn [c_sus c_new]. rewrite (mcount_cons_other u w cs v E). reflexivity. }
+      rewrite E1, E2. unfold Fv. cbn [c_sus c_new]. unfold fupdN. rewrite N.eqb_refl, Es, mem_cons, N.eqb_refl.
+      cbn [orb]. rewrite mcount_cons_same. cbn [qpow].
+      destruct (mem w A); ring.
+    + assert (Same : forall c', c_sus c' = c_sus c -> c_new c' = c_new c ->
+                prodQ (map (Fv c' cs) (gnodes g)) == prodQ (map (Fv c ((u, w) :: cs)) (gnodes g))).
+      { intros c' H1 H2. apply prodQ_ext. intros v Hv. unfold Fv. rewrite H1, H2.
+        destruct (N.eqb_spec v w) as [E|E].
+        - subst v. rewrite Es. reflexivity.
+        - rewrite (mcount_cons_other u w cs v E). reflexivity. }
+      destruct (full && mem w (c_new c)).
+      * cbn [simple_rules r_test bind]. rewrite prob_flip. fold q.
+        rewrite IH; [|exact Hcs'|exact Hinv]. rewrite IH; [|exact Hcs'|exact Hinv].
+        rewrite !Same by reflexivity. ring.
+      * rewrite IH; [|exact Hcs'|exact Hinv]. apply Same; reflexivity.
+Qed.
+
+(* one step of discrete_SIR with the default rule from susceptible-map [sus]: the probability
+   that the next generation is exactly A *)
+Theorem reedfrost_step_law : forall k age us sus nS ql,
+  (forall u v, In u us -> In v (gadj g u) -> In v (gnodes g)) ->
+  prob new_is (law (cloop (simple_rules p) full k age (contacts g us) (mkC sus [] [] nS ql))) ==
+  prodQ (map (fun v => if sus v
+                       then (if mem v A then 1 - qpow (1 - q) (mcount (contacts g us) v)
+                             else qpow (1 - q) (mcount (contacts g us) v))
+                       else (if mem v A then 0 else 1)) (gnodes g)).
+Proof.
+  intros k age us sus nS ql Hsub. rewrite rf_general.
+  - apply prodQ_ext. intros v Hv. unfold Fv. cbn [c_sus c_new mem existsb]. reflexivity.
+  - intros e He. unfold contacts in He. apply in_flat_map in He. destruct He as [u [Hu He]].
+    apply in_map_iff in He. destruct He as [v [E Hv]]. subst e. cbn [snd]. apply (Hsub u v Hu Hv).
+  - intros v [].
+Qed.
+
+End ReedFrost.
+
+(* ---- basic_discrete_SIS: one step ---- *)
+Section SISStep.
+Variable g : graph.
+Variable p : Q.
+Variable A : list node.
+Hypothesis Hnd : NoDup (gnodes g).
+Let q := clamp01 p.
+
+Definition sis_new_is (r : list node * list (node * list node) * list qentry) : bool :=
+  forallb (fun v => Bool.eqb (mem v (fst (fst r))) (mem v A)) (gnodes g).
+
+Definition Fs (infs new : list node) (cs : list (node * node)) (v : node) : Q :=
+  if mem v infs then (if mem v A then 0 else 1)
+  else if mem v new then (if mem v A then 1 else 0)
+  else (if mem v A then 1 - qpow (1 - q) (mcount cs v) else qpow (1 - q) (mcount cs v)).
+
+Lemma sis_general : forall k infs cs new inf ql,
+  (forall e, In e cs -> In (snd e) (gnodes g)) ->
+  (forall v, In v new -> mem v infs = false) ->
+  prob sis_new_is (law (sis_cloop (simple_rules p) k infs cs new inf ql)) ==
+  prodQ (map (Fs infs new cs) (gnodes g)).
+Proof.
+  intros k infs cs. induction cs as [|[u w] cs IH]; intros new inf ql Hcs Hinv.
+  - cbn [sis_cloop law]. unfold prob. simpl. unfold sis_new_is. cbn [fst]. rewrite Qplus_0_r.
+    rewrite <- prod_indicator. apply prodQ_ext. intros v Hv. unfold Fs, mcount. simpl.
+    destruct (mem v infs) eqn:Ei.
+    + assert (M : mem v new = false).
+      { destruct (mem v new) eqn:M; [|reflexivity]. apply dmem_In in M. apply Hinv in M. congruence. }
+      rewrite M. destruct (mem v A); simpl; reflexivity.
+    + destruct (mem v new), (mem v A); simpl; ring.
+  - assert (Hw : In w (gnodes g)) by (apply (Hcs (u, w)); left; reflexivity).
+    assert (Hcs' : forall e, In e cs -> In (snd e) (gnodes g)) by (intros e He; apply Hcs; right; exact He).
+    assert (Same : forall new', (forall v, mem v new' = mem v new) -> (mem w infs = true \/ mem w new = true) ->
+              prodQ (map (Fs infs new' cs) (gnodes g)) == prodQ (map (Fs infs new ((u, w) :: cs)) (gnodes g))).
+    { intros new' H1 H2. apply prodQ_ext. intros v Hv. unfold Fs. rewrite H1.
+      destruct (N.eqb_spec v w) as [E|E].
+      - subst v. destruct H2 as [H2|H2]; rewrite H2; [reflexivity|]. destruct (mem w infs); reflexivity.
+      - rewrite (mcount_cons_other u w cs v E). reflexivity. }
+    cbn [sis_cloop]. destruct (mem w infs) eqn:Ei; cbn [negb].
+    + rewrite IH; [|exact Hcs'|exact Hinv]. apply Same; [reflexivity|left; reflexivity].
+    + cbn [simple_rules r_test bind]. rewrite prob_flip. fold q.
+      destruct (mem w new) eqn:En; cbn [negb].
+      * rewrite IH; [|exact Hcs'|exact Hinv]. rewrite IH; [|exact Hcs'|exact Hinv].
+        rewrite !Same by (try reflexivity; right; reflexivity). ring.
+      * rewrite IH; [|exact Hcs'|].
+        2:{ intros v [E|Hv]; [subst v; exact Ei|apply Hinv; exact Hv]. }
+        rewrite IH; [|exact Hcs'|exact Hinv].
+        rewrite (prod_split _ _ w Hnd Hw). rewrite (prod_split (Fs infs new cs) _ w Hnd Hw).
+        rewrite (prod_split (Fs infs new ((u, w) :: cs)) _ w Hnd Hw).
+        set (PE := prodQ (map (fun v => if N.eqb v w then 1 else Fs infs new ((u, w) :: cs) v) (gnodes g))).
+        assert (E1 : prodQ (map (fun v => if N.eqb v w then 1 else Fs infs (w :: new) cs v) (gnodes g)) == PE).
+        { apply prodQ_ext. intros v Hv. destruct (N.eqb_spec v w) as [E|E]; [reflexivity|].
+          unfold Fs. rewrite mem_cons. destruct (N.eqb_spec v w) as [E'|_]; [contradiction|]. cbn [orb].
+          rewrite (mcount_cons_other u w cs v E). reflexivity. }
+        assert (E2 : prodQ (map (fun v => if N.eqb v w then 1 else Fs infs new cs v) (gnodes g)) == PE).
+        { apply prodQ_ext. intros v Hv. destruct (N.eqb_spec v w) as [E|E]; [reflexivity|].
+          unfold Fs. rewrite (mcount_cons_other u w cs v E). reflexivity. }
+        rewrite E1, E2. unfold Fs. rewrite Ei, En, mem_cons, N.eqb_refl. cbn [orb].
+        rewrite mcount_cons_same. cbn [qpow]. destruct (mem w A); ring.
+Qed.
+
+(* one step of basic_discrete_SIS from the infectious set [infs] *)
+Theorem sis_step_law : forall k infs us ql,
+  (forall u v, In u us -> In v (gadj g u) -> In v (gnodes g)) ->
+  prob sis_new_is (law (sis_cloop (simple_rules p) k infs (contacts g us) [] [] ql)) ==
+  prodQ (map (fun v => if mem v infs then (if mem v A then 0 else 1)
+                       else (if mem v A then 1 - qpow (1 - q) (mcount (contacts g us) v)
+                             else qpow (1 - q) (mcount (contacts g us) v))) (gnodes g)).
+Proof.
+  intros k infs us ql Hsub. rewrite sis_general.
+  - apply prodQ_ext. intros v Hv. unfold Fs. cbn [mem existsb]. reflexivity.
+  - intros e He. unfold contacts in He. apply in_flat_map in He. destruct He as [u [Hu He]].
+    apply in_map_iff in He. destruct He as [v [E Hv]]. subst e. cbn [snd]. apply (Hsub u v Hu Hv).
+  - intros v [].
+Qed.
+
+End SISStep.
+
+(* the number of pending contacts into v = the number of infectious neighbours of v *)
+Lemma mcount_app : forall l1 l2 v, mcount (l1 ++ l2) v = (mcount l1 v + mcount l2 v)%nat.
+Proof. intros. unfold mcount. rewrite filter_app, app_length. reflexivity. Qed.
+
+Lemma mcount_contacts : forall g us v, (forall u, In u us -> NoDup (gadj g u)) ->
+  mcount (contacts g us) v = length (filter (fun u => mem v (gadj g u)) us).
+Proof.
+  intros g us v H. induction us as [|u us IH]; [reflexivity|].
+  change (contacts g (u :: us)) with (map (fun w => (u, w)) (gadj g u) ++ contacts g us).
+  rewrite mcount_app. rewrite IH by (intros x Hx; apply H; right; exact Hx).
+  assert (E : mcount (map (fun w => (u, w)) (gadj g u)) v = if mem v (gadj g u) then 1%nat else 0%nat).
+  { specialize (H u (or_introl eq_refl)). unfold mcount. induction H as [|x l Hx Hn IHl]; [reflexivity|].
+    simpl. rewrite (N.eqb_sym v x). destruct (N.eqb_spec x v) as [E|E]; simpl.
+    - subst x. rewrite IHl. apply dmem_false in Hx. rewrite Hx. reflexivity.
+    - exact IHl. }
+  rewrite E. simpl. destruct (mem v (gadj g u)); simpl; reflexivity.
+Qed.
